@@ -49,3 +49,16 @@ package isaacstates
 //@   requires forall(string(k), mhas(box.vrs, k) ==> mval(box.vrs, k, *voterecords) != nil)
 //@   callsite RemoveValue requires a0 == vrkey(vr.sp, vr.isc)
 //@   hof Traverse#0 loop invariant forall(k, 0 <= k && k < len(removed) ==> removed[k] != nil)
+
+// ---- C08: the local node never equivocates (choke point) ---------------------------
+//
+// Every ballot leaves the node through Broadcast. A locally signed ballot is
+// handed to the network only if it is the ballot the pool keeps for its stage
+// point: either it was stored just now (first writer) or the stored one has
+// the same fact.
+//@ func (*DefaultBallotBroadcaster).Broadcast
+//@   prop C08
+//@   requires bb.pool != nil && bb.broadcastFunc != nil && bl != nil && bb.local != nil && bb.Logging != nil
+//@   requires bbset == 0
+//@   fnparam broadcastFunc requires a0 == bl
+//@   fnparam broadcastFunc requires !a0.SignFact().Node().Equal(bb.local) || bbset == 1 || (snd(bb.pool.Ballot(a0.Point().Point, a0.Point().Stage(), isaac.IsSuffrageConfirmBallotFact(a0.SignFact().Fact()))) && fst(bb.pool.Ballot(a0.Point().Point, a0.Point().Stage(), isaac.IsSuffrageConfirmBallotFact(a0.SignFact().Fact()))).SignFact().Fact().Hash().Equal(a0.SignFact().Fact().Hash()))
